@@ -507,3 +507,84 @@ CHECKS["C13"] = {
 
 for _p in ("C08", "C13", "C14", "C17"):
     CHECKS[_p]["registered"] = True
+
+
+CHECKS["C18"] = {
+    "registered": False,
+    "level_text": "Bounded model checking by symbolic execution of OpenDir and the lookup methods on manifests whose directory names are arbitrary ASCII strings (symbolic), format numbers and addresses symbolic choices: an accepted manifest only has single plain-segment directory names and format 1; every forward lookup for a listed package and any valid sub-path lies under the root; for every local path (symbolic suffix below the root) inside a package directory SourceForLocalPath followed by LocalPathForSource returns the cleaned path, and paths outside any package are refused; no path panics.",
+    "level_note": SB_NOTE + " The manifest reaches OpenDir through the JSON channel as a value (natively: marshalled with encoding/json); JSON text-level mutations (duplicate keys, wrong types) are outside.",
+    "explanation": "directory names, sub-paths and local paths are symbolic byte strings; oracle: segment-stack cleaning and prefix tests written independently",
+    "anchors": ["github.com/hashicorp/go-slug/sourcebundle.OpenDir", "(*github.com/hashicorp/go-slug/sourcebundle.Bundle).LocalPathForRemoteSource", "(*github.com/hashicorp/go-slug/sourcebundle.Bundle).SourceForLocalPath",
+                "(*github.com/hashicorp/go-slug/sourcebundle.Bundle).LocalPathForSource"],
+    "bounds": {"quick": "1 package: directory name 0..4 bytes, sub-path 0..3, local path suffix 0..5; 2 packages: 0..2 / 0..2 / 0..3; 3 format numbers, 4 address strings", "thorough": "1 package: 0..4 / 0..4 / 0..6; 2 packages: 0..3 / 0..3 / 0..4"},
+    "assumptions": SB_ASSUME + ["manifest strings are ASCII", "root directory /w/t"],
+    "groups": [sb_group("lookups", ["harness/sourcebundle/c18.go"],
+                        quick=[{"id": "c18-1pkg", "entry": "HarnessC18", "params": {"nPkgs": 1, "nDir": 4, "nSub": 3, "nPath": 5}, "no_panic": True, "shards": 8, "_w": 50},
+                               {"id": "c18-2pkg", "entry": "HarnessC18", "params": {"nPkgs": 2, "nDir": 2, "nSub": 2, "nPath": 3}, "no_panic": True, "shards": 8, "_w": 50}],
+                        thorough=[{"id": "c18-1pkg", "entry": "HarnessC18", "params": {"nPkgs": 1, "nDir": 4, "nSub": 4, "nPath": 6}, "no_panic": True, "shards": 16},
+                                  {"id": "c18-2pkg", "entry": "HarnessC18", "params": {"nPkgs": 2, "nDir": 3, "nSub": 3, "nPath": 4}, "no_panic": True, "shards": 16}],
+                        reach=["opened", "refused", "inside-package", "outside-packages"], sample_every=50)],
+}
+CHECKS["C18"]["groups"][0]["native_overlays"] = CHECKS["C18"]["groups"][0]["native_overlays"] + ["native/bundle_native.go"]
+
+
+CHECKS["C10"] = {
+    "registered": False,
+    "level_text": "Bounded model checking by symbolic execution of ensureRemotePackage / packagePrepareWalkFn (with filepath.Walk, the real filepath.EvalSymlinks, Rel and IsLocal from SSA) over fetched package trees of N symbolic nodes (files, directories, fifos, links whose targets are segment-structured paths, absolute or relative, possibly leading to a sibling package, the bundle root or outside it): in a successful build every remaining link resolves physically to a regular file or directory inside its own package directory, nothing else than files / directories / links remains, no temporary directory is left and nothing outside the target directory was touched; a package holding an escaping or dangling link or a special file makes the build fail. The C14/C08 world runs assert the last two clauses on every explored build as well.",
+    "level_note": SB_NOTE + " The content-hash model opens every non-directory entry through the model filesystem, as dirhash.Hash1 does (that read is what rejects links to directories and links whose target an ignore rule removed).",
+    "explanation": "fetched tree symbolic (kinds, names, parents, link targets); assertions on the final package directory by physical resolution in the model filesystem (natively: the real OS)",
+    "anchors": ["(*github.com/hashicorp/go-slug/sourcebundle.Builder).ensureRemotePackage", "github.com/hashicorp/go-slug/sourcebundle.packagePrepareWalkFn", "github.com/hashicorp/go-slug/sourcebundle.packagePrepareWalkFn$1"],
+    "bounds": {"quick": "N=1 node (link target <=3 segments), N=2 nodes (<=2 segments); names one free byte [a-z]; target segments: name / .. / . with optional leading slash",
+               "thorough": "N=2 (<=4 segments), N=3 (<=2 segments)"},
+    "assumptions": SB_ASSUME + ["no rule file in the fetched package in this harness (ignore-driven deletion: C03 evaluation layer)", "the working directory is not modified concurrently (documented precondition)"],
+    "groups": [sb_group("sanitise", ["harness/sourcebundle/c10.go"],
+                        quick=[{"id": "c10-N1", "entry": "HarnessC10", "params": {"N": 1, "sLink": 3}}, {"id": "c10-N2", "entry": "HarnessC10", "params": {"N": 2, "sLink": 2}, "shards": 12, "_w": 50}],
+                        thorough=[{"id": "c10-N2", "entry": "HarnessC10", "params": {"N": 2, "sLink": 4}, "shards": 16}, {"id": "c10-N3", "entry": "HarnessC10", "params": {"N": 3, "sLink": 2}, "shards": 16}],
+                        reach=["built", "build-failed", "link-kept"], sample_every=40)],
+}
+
+
+CHECKS["C09"] = {
+    "registered": False,
+    "level_text": "Bounded model checking by symbolic execution of a complete build followed by OpenDir on the same directory, and by WriteArchive (real Pack with dereferencing) -> tar channel -> ExtractArchive (real Unpack + OpenDir) into another directory: every accessor (remote packages, metadata, registry packages, versions, source addresses, deprecation notes, checksum, lookups relative to the root) answers identically, metadata the fetcher supplied comes back, and the two directory trees hold the same paths, kinds, contents, link targets and modes (packages with odd modes, an empty directory and an in-package link).",
+    "level_note": SB_NOTE + " The slug path uses the tar channel model (A-tar).",
+    "explanation": "world choices (commit metadata shapes, registry hop, deprecation, version order, dependency target) symbolic; bundles compared accessor by accessor, trees node by node",
+    "anchors": ["github.com/hashicorp/go-slug/sourcebundle.OpenDir", "(*github.com/hashicorp/go-slug/sourcebundle.Bundle).WriteArchive", "github.com/hashicorp/go-slug/sourcebundle.ExtractArchive",
+                "(*github.com/hashicorp/go-slug/sourcebundle.Builder).writeManifest", "(*github.com/hashicorp/go-slug.Packer).Pack", "(*github.com/hashicorp/go-slug.Packer).Unpack"],
+    "bounds": {"quick": "1 package with a registry hop, 2 packages without; one Add, one dependency per location, 3 metadata shapes (none, id+message, message only), 2 offered versions (order and deprecation symbolic)", "thorough": "3 packages"},
+    "assumptions": SB_ASSUME + ["A-tar"],
+    "groups": [sb_group("reopen", ["harness/sourcebundle/c09.go"],
+                        quick=[{"id": "c09-p1", "entry": "HarnessC09", "params": {"nPkg": 1, "registry": 1}, "_w": 20}, {"id": "c09-p2", "entry": "HarnessC09", "params": {"nPkg": 2, "registry": 0}, "shards": 10, "_w": 60}],
+                        thorough=[{"id": "c09-p2r", "entry": "HarnessC09", "params": {"nPkg": 2, "registry": 1}, "shards": 16}, {"id": "c09-p3", "entry": "HarnessC09", "params": {"nPkg": 3, "registry": 1}, "shards": 16}],
+                        reach=["built", "extracted"], sample_every=40)],
+}
+
+
+CHECKS["C12"] = {
+    "registered": False,
+    "level_text": "Bounded model checking by symbolic execution with symbolic fault masks: (slug) every tar-channel call of Pack and Unpack may fail (budget of 1-2 faults per run, truncated input) - any injected fault makes Pack / Unpack return an error, a successful Unpack has materialised every entry, policy rejections are *IllegalSlugError; (bundle) the fetcher may fail and finders return diagnostics of symbolic severity, text and file names - a failure or error diagnostic yields an error diagnostic, poisons the builder (further Add / Close panic, observed through recover), the manifest is absent at every callback boundary and after a failed build and present only after a successful Close, and finder diagnostics reach caller and tracer with severity, text and extra intact and valid package-relative file names rewritten as source addresses.",
+    "level_note": PACK_NOTE + " " + SB_NOTE + " Faults are injected per channel API call (A-tar: an underlying write failure surfaces at some later channel call, possibly only in a Close); natively each counterexample is replayed by making the k-th underlying Write / Read fail for k = 1..11. Failures of the destination filesystem during Unpack and an unreadable .terraformignore are outside what the property enumerates.",
+    "explanation": "fault positions are symbolic Booleans at every stub call; crash points = every harness callback during a build (manifest must be absent)",
+    "anchors": ["(*github.com/hashicorp/go-slug.Packer).Pack", "(*github.com/hashicorp/go-slug.Packer).Unpack", "(*github.com/hashicorp/go-slug/sourcebundle.Builder).resolvePending", "(*github.com/hashicorp/go-slug/sourcebundle.Builder).Close",
+                "(github.com/hashicorp/go-slug/sourcebundle.Diagnostics).inRemoteSourcePackage", "(github.com/hashicorp/go-slug/sourcebundle.diagnosticInSourcePackage).Source"],
+    "bounds": {"quick": "Pack: trees N<=2, 2 option sets, 1 fault; Unpack: K=1 entry (name/target 0..3 bytes), K=2 (0..1), 1 fault or truncation; build: 2 packages, fetch fault, one diagnostic per finder call (3 severities, 5 subject and 3 context file names), optional dependency",
+               "thorough": "2 faults; Unpack K=2 (0..3); Pack N=3; build 3 packages with registry faults"},
+    "assumptions": PACK_ASSUME + ["A-json, A-hash", "byte-offset granularity below the channel API is outside (A-tar)"],
+    "groups": [
+        slug_group("slugfaults", ["harness/slug/unpack.go", "harness/slug/pack.go", "harness/slug/c12.go"],
+                   quick=[{"id": "c12-pack-N1-o%d" % o, "entry": "HarnessC12Pack", "params": {"N": 1, "nLink": 3, "opts": o, "faults": 1}} for o in (0, 1)]
+                   + [{"id": "c12-pack-N2-o0", "entry": "HarnessC12Pack", "params": {"N": 2, "nLink": 2, "opts": 0, "faults": 1}, "shards": 4, "_w": 30},
+                      {"id": "c12-unpack-K1", "entry": "HarnessC12Unpack", "params": {"K": 1, "nName": 3, "nLink": 3, "faults": 1}, "shards": 2, "_w": 20},
+                      {"id": "c12-unpack-K2", "entry": "HarnessC12Unpack", "params": {"K": 2, "nName": 1, "nLink": 1, "faults": 1}, "shards": 6, "_w": 40}],
+                   thorough=[{"id": "c12-pack-N2-o%d" % o, "entry": "HarnessC12Pack", "params": {"N": 2, "nLink": 3, "opts": o, "faults": 2}, "shards": 8} for o in (0, 1, 3)]
+                   + [{"id": "c12-unpack-K2", "entry": "HarnessC12Unpack", "params": {"K": 2, "nName": 3, "nLink": 3, "faults": 2}, "shards": 16}],
+                   reach=["write-fault-injected", "read-fault-injected", "unpack-ok", "pack-ok"], sample_every=60),
+        sb_group("buildfaults", ["harness/sourcebundle/c12.go"],
+                 quick=[{"id": "c12-build-p2", "entry": "HarnessC12Build", "params": {"nPkg": 2, "faults": 1}, "shards": 10, "_w": 60}],
+                 thorough=[{"id": "c12-build-p3", "entry": "HarnessC12Build", "params": {"nPkg": 3, "faults": 1}, "shards": 16}],
+                 reach=["failed-build", "clean-build"], sample_every=150),
+    ],
+}
+
+for _p in ("C09", "C10", "C12", "C18"):
+    CHECKS[_p]["registered"] = True
